@@ -190,7 +190,7 @@ type StubConsensus struct {
 func (s *StubConsensus) rec(format string, a ...interface{}) {
 	s.Calls = append(s.Calls, fmt.Sprintf(format, a...))
 }
-func (s *StubConsensus) GetType() consensus.ConsensusType      { return consensus.ConsensusDPOS }
+func (s *StubConsensus) GetType() consensus.ConsensusType     { return consensus.ConsensusDPOS }
 func (s *StubConsensus) IsTransactionValid(tx *types.Tx) bool { return true }
 func (s *StubConsensus) VerifyTimestamp(b *types.Block) bool {
 	s.mu.Lock()
@@ -239,11 +239,11 @@ func (s *StubConsensus) NeedReorganization(rootNo types.BlockNo) bool {
 	s.rec("NeedReorg:%d", rootNo)
 	return rootNo >= s.Lib
 }
-func (s *StubConsensus) NeedNotify() bool                    { return true }
-func (s *StubConsensus) HasWAL() bool                        { return false }
+func (s *StubConsensus) NeedNotify() bool                     { return true }
+func (s *StubConsensus) HasWAL() bool                         { return false }
 func (s *StubConsensus) IsConnectedBlock(b *types.Block) bool { return false }
-func (s *StubConsensus) IsForkEnable() bool                  { return true }
-func (s *StubConsensus) Info() string                        { return "verif-stub" }
+func (s *StubConsensus) IsForkEnable() bool                   { return true }
+func (s *StubConsensus) Info() string                         { return "verif-stub" }
 func (s *StubConsensus) MakeConfChangeProposal(req *types.MembershipChange) (*consensus.ConfChangePropose, error) {
 	return nil, consensus.ErrNotSupportedMethod
 }
